@@ -252,6 +252,12 @@ def r5_4b(ctx):
                         is_timed = True
                 if is_timed:
                     tests.append((sb, be))
+    # match form: `match kind { ErrorKind::TimedOut => .., _ => .. }`
+    for sb, t in switches(f):
+        ve, rvv = variant_edges(f, sb)
+        if ve is not None and "TimedOut" in ve and "ErrorKind" in (rvv.get("ty") or ""):
+            others = [tg for v_, tg in ve.items() if v_ != "TimedOut"]
+            tests.append((sb, (ve["TimedOut"], others[0] if others else ve["TimedOut"])))
     timeouts = [(bb, si) for bb, si, rv in aggregates(f, "ExitStatus", "Timeout") if "subprocess" not in rv["adt"]]
     if not tests or not timeouts:
         raise AnchorError("SubprocessRunner::run: `kind == ErrorKind::TimedOut` test (%d) or ExitStatus::Timeout construction (%d) not found" % (len(tests), len(timeouts)))
@@ -320,3 +326,5 @@ def run(ctx):
     ctx.run_rule("R5.7", "the bash wrapper handles no signal (its handler is armed for EXIT only): death by signal stays visible as Signaled => Unknown [template analyzer]", r5_7, floor=1)
     from . import c13
     ctx.run_rule("R5.8", "single-script execution: test cases that disagree on output_stream are rejected by compile_testcase - the stream the script captures is the stream validation reads (shared with C13 R13.11) [E-PATH]", lambda c: c13.consistency_gates(c, ["output_stream"]), floor=1)
+    from . import c07
+    ctx.run_rule("R5.9", "the expected exit code is the one written for the test case (0 when none): no parsed exit code line survives the end of a block / run - end_testcase clears it on every Ok path and is not skipped by a state query (shared with C06 R6.13 / C07 R7.6) [E-PATH]", c07.parser_state_rules, floor=2)
